@@ -147,6 +147,16 @@ impl Add for Duration {
             None => {
                 // Overflowed, so we've hit the bound.
                 if self.centuries < 0 {
+                    // The sum is still representable if the century count underflows by exactly
+                    // one and the nanoseconds carry that century back.
+                    if i32::from(self.centuries) + i32::from(rhs.centuries) == i32::from(i16::MIN) - 1
+                        && self.nanoseconds + rhs.nanoseconds >= NANOSECONDS_PER_CENTURY
+                    {
+                        return Self::from_parts(
+                            i16::MIN,
+                            self.nanoseconds + rhs.nanoseconds - NANOSECONDS_PER_CENTURY,
+                        );
+                    }
                     // We've hit the negative bound, so return MIN.
                     return Self::MIN;
                 } else {
